@@ -11,6 +11,7 @@ as syntactic atoms; the only pruning is (a) literal constants (drop flags,
 aggregates whose variant is syntactically known) and (b) a decision already
 taken on the same atom earlier on the same path.
 """
+import re
 from . import sym
 from .sym import mk, tag, payload, kids
 
@@ -418,6 +419,9 @@ class _Run:
         if "promoted" in c and len(c.get("promoted_of", [])) == 1 and ty.startswith("&"):
             # `&NAMED_CONST` promoted to a static: the reference to that constant
             return mk("constdef", (c["promoted_of"][0], ty[1:].lstrip("'static ").strip()))
+        if re.match(r"^&(?:'static )?\[.*; 0(?:_usize)?\]$", ty.strip()):
+            # `&[]`: the empty list (a zero-length array promoted to a constant allocation)
+            return mk("array", (), ())
         return sym.const(ty, c["val"])
 
     def operand(self, st, o):
@@ -866,6 +870,10 @@ class _Run:
                         ty = target_fn.locals[i + 1]["ty"]
                         if (ty.startswith("&[") and ty.endswith("]") and ";" not in ty) or ty.startswith("&std::vec::Vec<"):
                             lmap[i] = (tag(a), len(kids(a)))
+                            # shared references among the elements (`&[&env.contract.address]`) are read now: the callee
+                            # only ever sees the values
+                            args = list(args)
+                            args[i] = mk(tag(a), payload(a), tuple(self.deep_deref(st, x) for x in kids(a)))
                 if cmap or lmap:
                     target_fn = self.world.specialise(target_fn, cmap, lmap)
                     name = target_fn.pretty
@@ -1008,6 +1016,12 @@ class _Run:
             return sym.unwrap(argvals[0]) if lc == "unwrap" else argvals[0]
         ctarget = self.closure_target(clo)
         is_item = tag(clo) == "fnref"
+        if ctarget is None and is_item and not str(payload(clo)[0]).startswith(tuple(w_ + "::" for w_ in WORKSPACE)):
+            # a library function item (`cond.then(Response::new)`): an opaque library call, like the same call written out
+            site = "%s#%d" % (self.fn.key, bb)
+            occ = st.occ.get(bb, 0)
+            st.occ[bb] = occ + 1
+            return sym.call(strip_generics(str(payload(clo)[0])), list(argvals), site, occ)
         if ctarget is None or ctarget.arg_count != (0 if is_item else 1) + len(argvals):
             return None
         site = "%s#%d" % (self.fn.key, bb)
@@ -1431,6 +1445,11 @@ class _Run:
                     else:
                         break
                 return sym.call("list::nth_back", [lst, k], "", 0)
+            if name.endswith("<impl [T]>::contains") and len(args) == 2 and a0 is not None and tag(a0) in ("array", "vec") and len(kids(a0)) <= 1:
+                # membership in a list whose elements are all known: never for the empty list, equality for one element
+                if not kids(a0):
+                    return sym.boolc(False)
+                return self.binop("eq", args[1], self.deep_deref(st, kids(a0)[0]))
             if name in ("cosmwasm_std::SubMsg::new", "cosmwasm_std::SubMsg::reply_always", "cosmwasm_std::SubMsg::reply_on_error",
                         "cosmwasm_std::SubMsg::reply_on_success") and args:
                 # the library's SubMsg constructors are the struct literal they abbreviate (cosmwasm-std results.rs):
